@@ -630,6 +630,11 @@ func instrDominatesCross(a, b ssa.Instruction) bool {
 // stop on the error.
 func reachesReturnAvoiding(from ssa.Instruction, stop func(ssa.Instruction) bool, retOK func(*ssa.Return) bool) []*ssa.BasicBlock {
 	ps := &pathSearch{stop: stop, retOK: retOK, passMemo: map[*ssa.Function]int{}}
+	// a rule never names a new helper: when the starting point is a call to one, it is only a
+	// position marker (first instruction of a block) and what the helper does counts
+	if g := newHelperCallee(from); g != nil && !ps.helperPasses(g, 0) {
+		return nil
+	}
 	return ps.run(from.Block(), instrIndex(from)+1, 0)
 }
 
@@ -704,6 +709,10 @@ func (ps *pathSearch) run(b0 *ssa.BasicBlock, start int, depth int) []*ssa.Basic
 			return nil
 		}
 		for _, c := range sites {
+			if isTailCall(c) {
+				// the caller returns exactly what the helper returned: this return is the exit
+				return path
+			}
 			up := &pathSearch{stop: ps.stop, retOK: ps.retOK, passMemo: ps.passMemo}
 			if p := up.run(c.Block(), instrIndex(c)+1, depth+1); p != nil {
 				return append(append([]*ssa.BasicBlock{}, path...), p...)
@@ -889,6 +898,85 @@ func instrReachesAvoiding(a, b, avoid ssa.Instruction) bool {
 		}
 		if !stop {
 			work = append(work, blk.Succs...)
+		}
+	}
+	return false
+}
+
+// EveryPathHas: along every control-flow path from the function entry to blk, some branch
+// edge carrying a fact accepted by ok is taken after which blk is still… reached — i.e. blk
+// cannot be entered without passing such an edge. Generalises FactsAt (one dominating edge)
+// to joins of alternatives (a || b, if/else arms that meet again).
+func (ff *FuncFacts) EveryPathHas(blk *ssa.BasicBlock, ok func(Fact) bool) bool {
+	for _, f := range ff.FactsAt(blk) {
+		if ok(f) {
+			return true
+		}
+	}
+	onStack := map[*ssa.BasicBlock]bool{}
+	memo := map[*ssa.BasicBlock]bool{}
+	var rec func(b *ssa.BasicBlock) bool
+	rec = func(b *ssa.BasicBlock) bool {
+		if v, done := memo[b]; done {
+			return v
+		}
+		if onStack[b] {
+			return true // a cycle adds no new way in
+		}
+		if len(b.Preds) == 0 {
+			return false
+		}
+		onStack[b] = true
+		res := true
+		for _, p := range b.Preds {
+			good := false
+			for i, e := range ff.Edges {
+				if e.From == p && e.To == b && p.Succs[0] != p.Succs[len(p.Succs)-1] && ok(ff.Facts[i]) {
+					good = true
+					break
+				}
+			}
+			if !good {
+				good = rec(p)
+			}
+			if !good {
+				res = false
+				break
+			}
+		}
+		delete(onStack, b)
+		memo[b] = res
+		return res
+	}
+	if blk.Parent() != ff.Fn {
+		return false
+	}
+	return rec(blk)
+}
+
+// isTailCall: the call's results are returned as they are by the next return in its block.
+func isTailCall(c *ssa.Call) bool {
+	b := c.Block()
+	for i := instrIndex(c) + 1; i < len(b.Instrs); i++ {
+		switch x := b.Instrs[i].(type) {
+		case *ssa.Extract:
+			if x.Tuple != ssa.Value(c) {
+				return false
+			}
+		case *ssa.Return:
+			return tailHelper(x) == c.Common().StaticCallee()
+		case *ssa.RunDefers, *ssa.DebugRef:
+		case *ssa.Store:
+			// defer-spilled result: the call's value (or an extract of it) goes into the result cell
+			if _, isCell := x.Addr.(*ssa.Alloc); !isCell {
+				return false
+			}
+		case *ssa.UnOp:
+			if _, isCell := x.X.(*ssa.Alloc); !isCell {
+				return false
+			}
+		default:
+			return false
 		}
 	}
 	return false
